@@ -3,6 +3,7 @@ import CaoProofs.Props.C10b
 import CaoProofs.Lemmas.CaptureStatic
 import CaoProofs.Lemmas.CaptureExec
 import CaoProofs.Lemmas.CaptureCheck
+import CaoProofs.Lemmas.CaptureCompiled
 /-!
 # C04c — the capture assertions of `RegisterUpvalue` in runs of COMPILED programs
 
@@ -21,7 +22,8 @@ continues under its own frame, the capture succeeds and the run ends normally
 (`abort_in_callback_no_longer_panics`).  The statement "compiled programs never reach the capture
 assertions" (`compiled_run_no_capture_panic_Full`) is therefore no longer refuted; it is proved for every
 program that passes the executable checker `capStaticB` (§3, `run_no_capture_panic`), which this program
-does (`ac_capStatic`); for ALL compiled programs it is open (§4).
+does (`ac_capStatic`), and for ALL compiled programs under the no-collision hypotheses on closure and
+function-pointer handles (§5, `compiled_capStatic`, `compiled_run_no_capture_panic`).
 
 The program is compiled, accepted by the checker (`Bytecode.WF`), satisfies all hypotheses of
 `C10b.compile_wf`, and is run from a fresh machine.
@@ -332,7 +334,7 @@ theorem abortInCallback_no_capture_panic : ∃ p, compile abortInCallback stdE =
   rw [hp] at h
   exact ⟨p, hp, fun n c e he => run_no_capture_panic hwf h n c e he⟩
 
-/-! ## 4. Stage D: all compiled programs — OPEN
+/-! ## 4. Stage D: all compiled programs — the state BEFORE §5 (kept for the record; §5 proves it)
 
 For compiled programs, `CaptureStatic.lean`/§2 prove the fields `reg` (from `compile_nonlocal_in_region`),
 `closLabel` (`compile_closure_label` + the count of the region) and `pairs` (`compile_tail_structure`) of
@@ -353,8 +355,9 @@ its target in `[a, b]`, at a boundary between the blocks of the card; then `lvlO
 (`Lemmas/CaptureCheck.lean`) reduce the fields `seq`, `jump`, `fnLabel`, `lastLvl`, `entryLvl` of the checker
 to "both ends of a control-flow edge lie in the same closure regions". -/
 
-/-- the statement for all compiled programs — OPEN (no counterexample is known; it follows from
-`run_no_capture_panic` for every compiled program that passes `capStaticB`) -/
+/-- the statement for all compiled programs under the hypotheses of `C10b.compile_wf` only — OPEN in this
+form; §5 proves it under one more no-collision hypothesis (`PointerHandlesDistinct`,
+`compiled_run_no_capture_panic`) -/
 def compiled_run_no_capture_panic_Full : Prop :=
   ∀ (m std : Module) (limit : Nat) (p : Program), compile m std limit = .ok p →
     p.bytecode.size < 2 ^ 31 → p.data.size < 2 ^ 32 → NoEntryRef m std limit p →
@@ -373,7 +376,9 @@ theorem compiled_run_only_gas_panic {m std : Module} {limit : Nat} {p : Program}
     (∀ w, rootCause e.kind = .panic w → w = "gas exhausted") ∧ e.kind ≠ .panic "gas exhausted" :=
   run_only_gas_panic (compile_wf hp h1 h2 h3 h4) hcs n c e h
 
-/-- what is missing for it, exactly: every compiled program passes the checker -/
+/-- every compiled program passes the checker, under the hypotheses of `C10b.compile_wf` only — OPEN in this
+form (`compiled_capStatic` in §5 needs `PointerHandlesDistinct` in addition: a `FunctionPointer` whose 32-bit
+handle collides with a later card label inside a closure body would resolve into that body) -/
 def compiled_capStatic_Full : Prop :=
   ∀ (m std : Module) (limit : Nat) (p : Program), compile m std limit = .ok p →
     p.bytecode.size < 2 ^ 31 → p.data.size < 2 ^ 32 → NoEntryRef m std limit p →
@@ -383,5 +388,178 @@ theorem compiled_run_no_capture_panic_of_capStatic (h : compiled_capStatic_Full)
     compiled_run_no_capture_panic_Full :=
   fun m std limit p hp h1 h2 h3 h4 n c e he =>
     run_no_capture_panic (compile_wf hp h1 h2 h3 h4) (h m std limit p hp h1 h2 h3 h4) n c e he
+
+/-! ## 5. Stage D: every compiled program passes the checker
+
+`Lemmas/CaptureJumps.lean` threads a second Hoare triple (`J k K m`, in the style of `Wf.Tr`) through
+`processCard`: the code `[n0, n1)` a block emits is a segment `JSeg bc L T n0 n1 Bs` — `Bs` lists the
+closure blocks `(a, c)` in it (skip-`Goto` at `a` with operand `c`, `Return` at `c - 1`, `Closure` at `c`
+whose handle is labelled `a + 5`), every `Closure` instruction belongs to a listed block, and every jump
+has its target in `T` (known positions of the frozen prefix, or `[n0, n1]`) and lies in the body of a listed
+block iff its target does (`JSeg.append`, `JSeg.closure`; back-patching: `hole_block_patch`, `ifElseCode_j`,
+`closureCode_j`).  `compileUnit_jspec`: the whole bytecode is such a segment from 0, and the label of
+every non-entry function lies outside of all bodies.  `Lemmas/CaptureCompiled.lean` (`capStaticB_of_seg`)
+evaluates the checker on such a program: its regions are exactly the bodies (`Fit`), fall-through
+(`seq_resp`) and jumps keep the bodies, the level at the start of a body is the number of pairs of its
+`Closure` instruction (`lvl_body_start`, from the nesting the skip-`Goto`s enforce: `skip_resp`), the `reg`
+field is the checker's `checkUp` clause (`C10b.compile_upvalues_checked`, `reg_ok`). -/
+
+/-- **no-collision hypothesis for function pointers** (the analogue of `ClosureHandlesDistinct`): the handle
+of a `FunctionPointer` instruction is not the handle of a label at another position — all entries of the
+label log with that handle agree on the position.  Weaker than `C08c.FunctionHandlesDistinct` (only the
+functions that are referred to matter) and implied by `C10b.LabelHandlesDistinct`. -/
+def PointerHandlesDistinct (m std : Module) (limit : Nat) (p : Program) : Prop :=
+  ∀ x, IsInstr p x op.functionPointer → ∀ l1 ∈ labelLog m std limit, ∀ l2 ∈ labelLog m std limit,
+    l1.1 = UInt32.ofNat (Bytecode.rdU32 p.bytecode (x + 1)) → l2.1 = l1.1 → l2.2 = l1.2
+
+theorem LabelHandlesDistinct.pointer {m std : Module} {limit : Nat} (h : LabelHandlesDistinct m std limit)
+    (p : Program) : PointerHandlesDistinct m std limit p :=
+  fun _ _ l1 h1 l2 h2 _ e => h l1 h1 l2 h2 e
+
+/-- **(b) `compiled_seq_jump`**: the whole bytecode of a compiled program is a segment whose jumps respect
+the closure blocks — with the blocks `Bs` of the compilation: every `Closure` instruction is the end of a
+block; a jump lies in the body `[a + 5, c)` of a block iff its target does (`JSeg.jmp`), the targets are
+`≤ size`; and **(c)** the label of every non-entry function lies in no body -/
+theorem compiled_seq_jump {m std : Module} {limit : Nat} {p : Program} (hp : compile m std limit = .ok p) :
+    ∃ unit Bs, intoIrStream m std limit = .ok unit ∧
+      JSeg p.bytecode (labelLog m std limit) (fun t => t ≤ p.bytecode.size) 0 p.bytecode.size Bs ∧
+      ∀ f ∈ unit.toList.drop 1, ∃ q, (f.handle, q) ∈ labelLog m std limit ∧ ∀ B ∈ Bs, ¬ InBody B q := by
+  obtain ⟨unit, s, hu, hrun, hbc, _, hlog⟩ := compile_run hp
+  obtain ⟨Bs, G, fl⟩ := compileUnit_jspec hrun
+  rw [← hbc] at G
+  rw [← hlog] at G fl
+  exact ⟨unit, Bs, hu, G, fl⟩
+
+/-- **(d) `compiled_capStatic`**: every compiled program passes the executable checker `capStaticB`, under
+the hypotheses of `C10b.compile_wf` and the no-collision hypothesis for function pointers -/
+theorem compiled_capStatic {m std : Module} {limit : Nat} {p : Program} (hp : compile m std limit = .ok p)
+    (h1 : p.bytecode.size < 2 ^ 31) (h3 : NoEntryRef m std limit p)
+    (h4 : ClosureHandlesDistinct m std limit p) (h5 : PointerHandlesDistinct m std limit p) :
+    capStaticB p = true := by
+  obtain ⟨unit, Bs, hu, G, fl⟩ := compiled_seq_jump hp
+  obtain ⟨_, _, _, _, _, hlab, hlog⟩ := compile_run hp
+  obtain ⟨l, hdec, _, _⟩ := compile_decodes hp
+  refine capStaticB_of_seg (log := labelLog m std limit) (by rw [hlog]; exact hlab) (by omega) G hdec h4
+    (compile_upvalues_checked hp h4) ?_
+  intro x hi e he B hB
+  obtain ⟨unit', hu', ⟨f, hf, hfh⟩, _⟩ := compile_function_pointers hp hi
+  rw [hu] at hu'
+  cases hu'
+  have hne := h3 unit hu x hi
+  rw [← hfh] at hne
+  have hd : f ∈ unit.toList.drop 1 := by
+    obtain ⟨l⟩ := unit
+    cases l with
+    | nil => cases hf
+    | cons y ys =>
+      simp only [List.drop_succ_cons, List.drop_zero]
+      rcases List.mem_cons.1 hf with rfl | hf'
+      · exact absurd (by rfl) hne
+      · exact hf'
+  obtain ⟨q, q1, q2⟩ := fl f hd
+  rw [hfh] at q1
+  obtain ⟨e', he', hes⟩ := find_label q1 (fun l2 hl2 e2 => h5 x hi _ q1 l2 hl2 rfl e2)
+  rw [hlab, ← hlog, he'] at he
+  cases he
+  rw [hes]
+  exact q2 B hB
+
+/-- all static facts at once, for the level function of the checker: in particular the fields `seq` and
+`jump` (fall-through and every `Goto`/`GotoIfTrue`/`GotoIfFalse` keep the level), `fnLabel`, `lastLvl`,
+`entryLvl` of `CapStatic` hold for every compiled program -/
+theorem compiled_CapStatic {m std : Module} {limit : Nat} {p : Program} (hp : compile m std limit = .ok p)
+    (h1 : p.bytecode.size < 2 ^ 31) (h3 : NoEntryRef m std limit p)
+    (h4 : ClosureHandlesDistinct m std limit p) (h5 : PointerHandlesDistinct m std limit p) :
+    CapStatic (Prog.ofProgram p) (C04.Start p) (lvlOf (regionsOf p)) (cntOf p.bytecode) :=
+  capStaticB_sound_at (compiled_capStatic hp h1 h3 h4 h5)
+
+/-- **`compiled_run_no_capture_panic`**: a compiled program, run with any budget from a fresh machine,
+never reports an error whose root cause is one of the two capture assertions of `RegisterUpvalue` — no
+`capStaticB` hypothesis -/
+theorem compiled_run_no_capture_panic {m std : Module} {limit : Nat} {p : Program}
+    (hp : compile m std limit = .ok p) (h1 : p.bytecode.size < 2 ^ 31) (h2 : p.data.size < 2 ^ 32)
+    (h3 : NoEntryRef m std limit p) (h4 : ClosureHandlesDistinct m std limit p)
+    (h5 : PointerHandlesDistinct m std limit p)
+    (n : Nat) (c : Config) (e : RunErr) (h : (run (Prog.ofProgram p) n (VmState.fresh c)).2 = some e) :
+    rootCause e.kind ≠ .panic "closure not found for capture" ∧
+    rootCause e.kind ≠ .panic "upvalue index out of bounds" :=
+  run_no_capture_panic (compile_wf hp h1 h2 h3 h4) (compiled_capStatic hp h1 h3 h4 h5) n c e h
+
+/-- the same from a cleared machine -/
+theorem compiled_run_no_capture_panic_cleared {m std : Module} {limit : Nat} {p : Program}
+    (hp : compile m std limit = .ok p) (h1 : p.bytecode.size < 2 ^ 31) (h2 : p.data.size < 2 ^ 32)
+    (h3 : NoEntryRef m std limit p) (h4 : ClosureHandlesDistinct m std limit p)
+    (h5 : PointerHandlesDistinct m std limit p)
+    (n : Nat) (s : VmState) (e : RunErr) (h : (run (Prog.ofProgram p) n (clear s)).2 = some e) :
+    rootCause e.kind ≠ .panic "closure not found for capture" ∧
+    rootCause e.kind ≠ .panic "upvalue index out of bounds" :=
+  run_no_capture_panic_cleared (compile_wf hp h1 h2 h3 h4) (compiled_capStatic hp h1 h3 h4 h5) n s e h
+
+/-- **`compiled_run_only_gas_panic'`**: for a compiled program run from a fresh machine, the only panic that
+can be the root cause of a reported error is the model's own fuel, `"gas exhausted"`, below a host
+function — no `capStaticB` hypothesis -/
+theorem compiled_run_only_gas_panic' {m std : Module} {limit : Nat} {p : Program}
+    (hp : compile m std limit = .ok p) (h1 : p.bytecode.size < 2 ^ 31) (h2 : p.data.size < 2 ^ 32)
+    (h3 : NoEntryRef m std limit p) (h4 : ClosureHandlesDistinct m std limit p)
+    (h5 : PointerHandlesDistinct m std limit p)
+    (n : Nat) (c : Config) (e : RunErr) (h : (run (Prog.ofProgram p) n (VmState.fresh c)).2 = some e) :
+    (∀ w, rootCause e.kind = .panic w → w = "gas exhausted") ∧ e.kind ≠ .panic "gas exhausted" :=
+  run_only_gas_panic (compile_wf hp h1 h2 h3 h4) (compiled_capStatic hp h1 h3 h4 h5) n c e h
+
+/-- a reused machine -/
+theorem compiled_run_twice_no_capture_panic {m std : Module} {limit : Nat} {p : Program}
+    (hp : compile m std limit = .ok p) (h1 : p.bytecode.size < 2 ^ 31) (h2 : p.data.size < 2 ^ 32)
+    (h3 : NoEntryRef m std limit p) (h4 : ClosureHandlesDistinct m std limit p)
+    (h5 : PointerHandlesDistinct m std limit p)
+    (n k : Nat) (c : Config) (hok : (run (Prog.ofProgram p) n (VmState.fresh c)).2 = none) (e : RunErr)
+    (h : (run (Prog.ofProgram p) k (run (Prog.ofProgram p) n (VmState.fresh c)).1).2 = some e) :
+    rootCause e.kind ≠ .panic "closure not found for capture" ∧
+    rootCause e.kind ≠ .panic "upvalue index out of bounds" :=
+  run_twice_no_capture_panic (compile_wf hp h1 h2 h3 h4) (compiled_capStatic hp h1 h3 h4 h5) n k c hok e h
+
+/-- the hypothesis-free forms of §4 follow from `PointerHandlesDistinct` for all compiled programs — the
+only thing that remains open is whether that hypothesis can be dropped (like `ClosureHandlesDistinct`, it
+excludes a collision of 32-bit hashes, which the model cannot exclude) -/
+theorem compiled_capStatic_Full_of_pointers
+    (h : ∀ (m std : Module) (limit : Nat) (p : Program), compile m std limit = .ok p →
+      PointerHandlesDistinct m std limit p) : compiled_capStatic_Full :=
+  fun m std limit p hp h1 _ h3 h4 => compiled_capStatic hp h1 h3 h4 (h m std limit p hp)
+
+/-! ### non-vacuity -/
+
+/-- the hypotheses of `compiled_run_no_capture_panic` hold for `abortInCallback` (which contains a function
+pointer to `h`, two closures, one nested with a non-local capture) -/
+theorem ac_all_hyps : ∃ p, compile abortInCallback stdE = .ok p ∧ p.bytecode.size < 2 ^ 31 ∧
+    p.data.size < 2 ^ 32 ∧ NoEntryRef abortInCallback stdE Gen.recursionLimit p ∧
+    ClosureHandlesDistinct abortInCallback stdE Gen.recursionLimit p ∧
+    PointerHandlesDistinct abortInCallback stdE Gen.recursionLimit p := by
+  obtain ⟨p, hp, a1, a2, a3, a4, _⟩ := ac_hyps
+  refine ⟨p, hp, a1, a2, a3, a4, ?_⟩
+  have h := ac_hypsCheck
+  unfold hypsCheck at h
+  rw [hp] at h
+  simp only [Bool.and_eq_true, decide_eq_true_eq] at h
+  exact LabelHandlesDistinct.pointer (functional_of_pairwise _ h.2) p
+
+/-- the theorem and the evaluation of the checker agree on it -/
+example : ∃ p, compile abortInCallback stdE = .ok p ∧ capStaticB p = true := by
+  obtain ⟨p, hp, a1, _, a3, a4, a5⟩ := ac_all_hyps
+  exact ⟨p, hp, compiled_capStatic hp a1 a3 a4 a5⟩
+
+/-- end to end, from the theorem: no run of the compiled `abortInCallback` reports a capture assertion -/
+example : ∃ p, compile abortInCallback stdE = .ok p ∧
+    ∀ (n : Nat) (c : Config) (e : RunErr), (run (Prog.ofProgram p) n (VmState.fresh c)).2 = some e →
+      rootCause e.kind ≠ .panic "closure not found for capture" ∧
+      rootCause e.kind ≠ .panic "upvalue index out of bounds" := by
+  obtain ⟨p, hp, a1, a2, a3, a4, a5⟩ := ac_all_hyps
+  exact ⟨p, hp, fun n c e he => compiled_run_no_capture_panic hp a1 a2 a3 a4 a5 n c e he⟩
+
+/-- a concrete segment: `Goto 8; ScalarNil; Return; Closure h 0` with the label `(h, 5)` is one closure
+block `(0, 7)` -/
+example : JSeg #[op.goto, 7, 0, 0, 0, op.scalarNil, op.ret, op.closure, 1, 0, 0, 0, 0, 0, 0, 0] [(1, 5)]
+    (fun t => t ≤ 16) 0 16 [(0, 7)] :=
+  JSeg.closure (c' := 5) (Tb := fun _ => False) (by decide) (by decide) (JSeg.nil _ _ _ _) (fun _ h => h.elim)
+    (by decide) (by decide) (by decide) (by decide) (.nil _) (fun x hx hlt => by have := hx.le; omega)
+    (by decide) (fun _ h => h.elim)
 
 end Cao.C04c
